@@ -1,1 +1,103 @@
 // harness bodies for h2 src/codec/framed_read.rs (compiled in-crate as `verif_h`, feature "verif")
+use super::*;
+
+/// C18.cont: `calc_max_continuation_frames` for every (header list limit, frame size)
+/// with frame size >= 2^14 (the SETTINGS_MAX_FRAME_SIZE floor): at least 5, at least the
+/// frames needed to carry a maximal header list, at most 25 % + 1 above that, monotone
+/// in the header limit, no overflow or division by zero.
+pub fn c18_cont_max_frames_arith_16k() { cont_max_frames_arith(16_384) }
+pub fn c18_cont_max_frames_arith_64k() { cont_max_frames_arith(65_536) }
+pub fn c18_cont_max_frames_arith_16m() { cont_max_frames_arith(16_777_215) }
+// the frame size is concrete per query: a 64-bit symbolic / symbolic division did not
+// finish in 900 s (bit-blasted divider); division by a constant does
+fn cont_max_frames_arith(frame_max: usize) {
+    let header_max: usize = kani::any();
+    let m = calc_max_continuation_frames(header_max, frame_max);
+    let need = header_max / frame_max;
+    assert!(m >= 5, "fewer than 5 CONTINUATION frames allowed");
+    assert!(m >= need, "limit below what a maximal legal header list needs");
+    let base = if need > 1 { need } else { 1 };
+    assert!(m as u128 <= (base as u128 + (base as u128 >> 2)).max(5), "limit more than 25% above the need");
+    let header_max2: usize = kani::any();
+    kani::assume(header_max2 >= header_max);
+    assert!(calc_max_continuation_frames(header_max2, frame_max) >= m, "not monotone in the header list limit");
+    kani::cover!(m > 5, "large");
+    kani::cover!(true, "end");
+}
+
+#[derive(PartialEq, Eq, Clone, Copy)]
+enum Class {
+    Frame(u8),   // decoded frame of this wire type
+    Ignored,     // Ok(None)
+    ConnError,   // GOAWAY(PROTOCOL_ERROR)
+    StreamError, // RST_STREAM(PROTOCOL_ERROR)
+    Other,
+}
+
+fn classify(r: &Result<Option<Frame>, Error>) -> Class {
+    match r {
+        Ok(None) => Class::Ignored,
+        Ok(Some(f)) => Class::Frame(match f {
+            Frame::Data(_) => 0,
+            Frame::Headers(_) => 1,
+            Frame::Priority(_) => 2,
+            Frame::Reset(_) => 3,
+            Frame::Settings(_) => 4,
+            Frame::PushPromise(_) => 5,
+            Frame::Ping(_) => 6,
+            Frame::GoAway(_) => 7,
+            Frame::WindowUpdate(_) => 8,
+        }),
+        Err(Error::GoAway(_, Reason::PROTOCOL_ERROR, crate::proto::Initiator::Library)) => Class::ConnError,
+        Err(Error::Reset(_, Reason::PROTOCOL_ERROR, crate::proto::Initiator::Library)) => Class::StreamError,
+        Err(_) => Class::Other,
+    }
+}
+
+/// C09.frame / C08: `decode_frame` on a frame of concrete wire type KIND and payload
+/// length N with symbolic flags, stream id and payload, no header block in progress.
+/// Reference: RFC 9113 §6 size / stream-id rules (violations of rules that corrupt
+/// connection state => connection error; PRIORITY self-dependency => stream error;
+/// unknown types ignored).
+fn decode_fixed<const KIND: u8, const N: usize>() {
+    let flags: u8 = kani::any();
+    let sid: u32 = kani::any();
+    kani::assume(sid <= 0x7fff_ffff);
+    let payload: [u8; N] = kani::any();
+    let mut bytes = BytesMut::with_capacity(9 + N + 8);
+    bytes.extend_from_slice(&[0, 0, N as u8, KIND, flags]);
+    bytes.extend_from_slice(&sid.to_be_bytes());
+    bytes.extend_from_slice(&payload);
+    let mut hpack = hpack::Decoder::new(4096);
+    let mut partial: Option<Partial> = None;
+    let r = decode_frame(&mut hpack, 16 << 20, 5, &mut partial, bytes);
+    let got = classify(&r);
+    let be = |i: usize| -> u32 { ((payload[i] as u32) << 24) | ((payload[i + 1] as u32) << 16) | ((payload[i + 2] as u32) << 8) | (payload[i + 3] as u32) };
+    let want = match KIND {
+        6 => if sid == 0 && N == 8 { Class::Frame(6) } else { Class::ConnError },
+        3 => if N == 4 { Class::Frame(3) } else { Class::ConnError },
+        8 => if N == 4 && (be(0) & 0x7fff_ffff) != 0 { Class::Frame(8) } else { Class::ConnError },
+        2 => if sid == 0 || N != 5 { Class::ConnError } else if (be(0) & 0x7fff_ffff) == sid { Class::StreamError } else { Class::Frame(2) },
+        7 => if N >= 8 { Class::Frame(7) } else { Class::ConnError },
+        9 => Class::ConnError, // CONTINUATION without a preceding HEADERS / PUSH_PROMISE
+        _ => Class::Ignored,   // unknown frame types
+    };
+    assert!(got == want, "C09.frame: decode_frame classification differs from RFC 9113 section 6");
+    assert!(partial.is_none());
+    kani::cover!(matches!(got, Class::Frame(_)), "accepted");
+    kani::cover!(true, "end");
+    std::mem::forget(r);
+    std::mem::forget(hpack);
+}
+pub fn c09_decode_ping_8() { decode_fixed::<6, 8>() }
+pub fn c09_decode_ping_7() { decode_fixed::<6, 7>() }
+pub fn c09_decode_reset_4() { decode_fixed::<3, 4>() }
+pub fn c09_decode_reset_5() { decode_fixed::<3, 5>() }
+pub fn c09_decode_window_update_4() { decode_fixed::<8, 4>() }
+pub fn c09_decode_window_update_3() { decode_fixed::<8, 3>() }
+pub fn c09_decode_priority_5() { decode_fixed::<2, 5>() }
+pub fn c09_decode_priority_4() { decode_fixed::<2, 4>() }
+pub fn c09_decode_goaway_8() { decode_fixed::<7, 8>() }
+pub fn c09_decode_goaway_7() { decode_fixed::<7, 7>() }
+pub fn c09_decode_continuation_orphan() { decode_fixed::<9, 4>() }
+pub fn c09_decode_unknown_type() { decode_fixed::<0x42, 6>() }
